@@ -7,9 +7,9 @@
    from the Go source).  The only hypothesis on the client is client_wf: it answers about the
    package it was asked about and hands out requirement keys of type Requirement.
    `Resolve returns a graph without a graph-level error` is [resolve_fuel ... = Ok g]. *)
-From Coq Require Import String.
+From Coq Require Import String Sorted.
 From DepsDev Require Import Lib.Base Gen.PypiTables Resolve.Pypi Resolve.Pypi_lists_proofs Resolve.Pypi_inv_proofs
-     Resolve.Pypi_graph_proofs Resolve.Pypi_fuel_proofs Resolve.Pypi_total_proofs Resolve.Pypi_spec Resolve.Pypi_examples Resolve.Pypi_proofs.
+     Resolve.Pypi_graph_proofs Resolve.Pypi_fuel_proofs Resolve.Pypi_total_proofs Resolve.Pypi_exact_proofs Resolve.Pypi_spec Resolve.Pypi_examples Resolve.Pypi_proofs.
 
 Section C08.
   Variable c_versions : bytes -> res (list vkey).
@@ -89,6 +89,92 @@ Section C08.
     exists r, has_route fuel st v c = Ok r.
   Proof.
     intros st fuel v c P H. destruct (has_route_total st fuel v c P H) as (r & R & _). exists r. exact R.
+  Qed.
+
+  (* ---- the candidates of a criterion are exactly what all its requirements admit ----
+     In the state the resolution returns (and in every state on the way), a version is a candidate of
+     a criterion IF AND ONLY IF every requirement of the criterion admits it -- in the matching mode
+     findMatches decides from the WHOLE list (pre-release matching iff the list has more than one
+     element and one of them names a pre-release) -- and it is not an incompatibility.  So no
+     requirement is lost, none is matched in another mode, and no candidate of an earlier, shorter
+     list is reused.
+     MISSING for the unconditional statement: the provider's answers must come in one consistent
+     strict order lt (intersect walks both lists once); LocalClient answers in ascending version
+     order.  Without it the statement is false (C08_candidates_exact_refuted below). *)
+  Theorem C08_candidates_exact_partial : forall (lt : vkey -> vkey -> Prop) fuel st,
+    (forall a, ~ lt a a) -> (forall a b c, lt a b -> lt b c -> lt a c) ->
+    (forall pre rq l, gm c_versions c_matching has_pre constraint_ok match_pre ver_lt root pre rq = Ok l ->
+                      StronglySorted lt l) ->
+    ResolveState fuel = Ok st ->
+    forall n c, crit_get (criteria_of st) n = Some c ->
+    forall v, In v (c_cands c) <->
+              allowed c_versions c_matching has_pre constraint_ok match_pre ver_lt root (reqs_of c) v /\
+              ~ In v (c_incompat c).
+  Proof.
+    intros lt fuel st I T S H.
+    exact (resolve_state_exact c_versions c_requirements c_matching marker_true has_pre constraint_ok match_pre ver_lt root lt I T S fuel st H).
+  Qed.
+
+  (* the same with the hypothesis moved to the client and the version comparator: MatchingVersions
+     answers strictly ascending in lt; Versions answers without repetition, on which the comparator
+     used by matchingVersionsWithPrereleases decides lt and any two versions are comparable.  (The
+     share of recorded tables that meet this is measured on every run.) *)
+  Theorem C08_candidates_exact_client_partial : forall (lt : vkey -> vkey -> Prop) fuel st,
+    (forall a, ~ lt a a) -> (forall a b c, lt a b -> lt b c -> lt a c) ->
+    (forall k l, c_matching k = Ok l -> StronglySorted lt l) ->
+    (forall p l, c_versions p = Ok l ->
+       NoDup l /\ forall a b, In a l -> In b l ->
+         (ver_lt (vk_ver a) (vk_ver b) = true <-> lt a b) /\ (a = b \/ lt a b \/ lt b a)) ->
+    ResolveState fuel = Ok st ->
+    forall n c, crit_get (criteria_of st) n = Some c ->
+    forall v, In v (c_cands c) <->
+              allowed c_versions c_matching has_pre constraint_ok match_pre ver_lt root (reqs_of c) v /\
+              ~ In v (c_incompat c).
+  Proof.
+    intros lt fuel st I T Hm Hv H.
+    exact (resolve_state_exact c_versions c_requirements c_matching marker_true has_pre constraint_ok match_pre ver_lt root lt I T
+             (gm_sorted_client c_versions c_matching has_pre constraint_ok match_pre ver_lt root lt T Hm Hv) fuel st H).
+  Qed.
+
+  (* ---- a reported conflict is a real one (part of: failure only when no assignment exists) ----
+     When mergeIntoCriterion answers with the requirements-conflict error (the error that makes a
+     candidate be rejected, and, for a direct dependency, the whole resolution fail), no version is
+     admitted by the criterion's requirements together with the new one and is not an
+     incompatibility.  Same order hypothesis as above.
+     MISSING for the clause of the property: that backtracking explores every assignment before
+     `resolution impossible` is reported after rounds of pinning (completeness of the search). *)
+  Theorem C08_conflict_sound_partial : forall (lt : vkey -> vkey -> Prop) st rq par,
+    (forall a, ~ lt a a) -> (forall a b c, lt a b -> lt b c -> lt a c) ->
+    (forall pre r l, gm c_versions c_matching has_pre constraint_ok match_pre ver_lt root pre r = Ok l ->
+                     StronglySorted lt l) ->
+    exact_state c_versions c_matching has_pre constraint_ok match_pre ver_lt root st ->
+    merge_into_criterion c_versions c_matching has_pre constraint_ok match_pre ver_lt root st rq par = Err EConflict ->
+    let c := crit_get_or_empty (criteria_of st) (rq_name rq) in
+    forall v, ~ (allowed c_versions c_matching has_pre constraint_ok match_pre ver_lt root (reqs_of c ++ [rq]) v /\
+                 ~ In v (c_incompat c)).
+  Proof.
+    intros lt st rq par I T S.
+    exact (merge_conflict_sound c_versions c_requirements c_matching has_pre constraint_ok match_pre ver_lt root lt I T S st rq par).
+  Qed.
+
+  (* the graph-level error raised while the direct dependencies are merged: at the requirement d where
+     it stops, no version of d's package is admitted by d together with the direct requirements
+     merged before it *)
+  Theorem C08_initial_error_sound_partial : forall (lt : vkey -> vkey -> Prop) deps,
+    (forall a, ~ lt a a) -> (forall a b c, lt a b -> lt b c -> lt a c) ->
+    (forall pre r l, gm c_versions c_matching has_pre constraint_ok match_pre ver_lt root pre r = Ok l ->
+                     StronglySorted lt l) ->
+    init_criteria c_versions c_matching has_pre constraint_ok match_pre ver_lt root empty_state deps = Err EImpossible ->
+    exists pre d post st1,
+      deps = pre ++ d :: post /\
+      init_criteria c_versions c_matching has_pre constraint_ok match_pre ver_lt root empty_state pre = Ok st1 /\
+      let c := crit_get_or_empty (criteria_of st1) (rq_name d) in
+      forall v, ~ (allowed c_versions c_matching has_pre constraint_ok match_pre ver_lt root (reqs_of c ++ [d]) v /\
+                   ~ In v (c_incompat c)).
+  Proof.
+    intros lt deps I T S.
+    apply (init_impossible_sound c_versions c_requirements c_matching has_pre constraint_ok match_pre ver_lt root lt I T S deps empty_state).
+    intros n c G. discriminate.
   Qed.
 
   (* ---- the clauses of the property ---- *)
@@ -191,6 +277,10 @@ Print Assumptions C08_resolve_total.
 Print Assumptions C08_backtrack_terminates.
 Print Assumptions C08_filter_slice_terminates.
 Print Assumptions C08_has_route_terminates.
+Print Assumptions C08_candidates_exact_partial.
+Print Assumptions C08_candidates_exact_client_partial.
+Print Assumptions C08_conflict_sound_partial.
+Print Assumptions C08_initial_error_sound_partial.
 Print Assumptions C08_graph_total.
 Print Assumptions C08_one_version.
 Print Assumptions C08_root_fixed.
@@ -255,6 +345,43 @@ Definition C08_edges_sound_full : Prop :=
 Theorem C08_edges_sound_refuted_stale : ~ C08_edges_sound_full.
 Proof. exact edges_sound_refuted_stale. Qed.
 Print Assumptions C08_edges_sound_refuted_stale.
+
+(* Exactness of candidates for every client, without the order hypothesis: FALSE.
+   r -> a, b; a -> x>=1; b -> x<3; a (well-formed) client answers MatchingVersions(x>=1) = [1.0; 2.0]
+   and MatchingVersions(x<3) = [2.0; 1.0]: intersect finds 1.0 at the end of the second list and has
+   nothing left to find 2.0 in, so x 2.0, admitted by both requirements, is not a candidate and the
+   resolver selects x 1.0.  Replayed on the Go resolver through the table client on every run. *)
+Definition C08_candidates_exact_full : Prop :=
+  forall c_versions c_requirements c_matching marker_true has_pre constraint_ok match_pre ver_lt root fuel st,
+    client_wf c_versions c_requirements c_matching ->
+    resolve_state_fuel c_versions c_requirements c_matching marker_true has_pre constraint_ok match_pre ver_lt root fuel = Ok st ->
+    exact_state c_versions c_matching has_pre constraint_ok match_pre ver_lt root st.
+
+Theorem C08_candidates_exact_refuted : ~ C08_candidates_exact_full.
+Proof. exact candidates_exact_refuted. Qed.
+Print Assumptions C08_candidates_exact_refuted.
+
+(* the hypotheses of C08_candidates_exact_partial are satisfiable *)
+Example C08_candidates_exact_inhabited :
+  let cm := fun _ : vkey => Ok [mkvk (bs "a") 1 (bs "1"); mkvk (bs "a") 1 (bs "10")] in
+  let root := mkvk (bs "r") 1 (bs "1") in
+  (forall a, ~ ex_lt a a) /\ (forall a b c, ex_lt a b -> ex_lt b c -> ex_lt a c) /\
+  (forall pre rq l, gm (fun _ => Err 0) cm (fun _ => true) (fun _ => true) (fun _ _ => false) (fun _ _ => false) root pre rq = Ok l ->
+                    StronglySorted ex_lt l) /\
+  exists st, resolve_state_fuel (fun _ => Err 0) (fun _ => Ok []) cm (fun _ _ => Ok true) (fun _ => true) (fun _ => true)
+               (fun _ _ => false) (fun _ _ => false) root 10 = Ok st.
+Proof. exact example_order_hypotheses. Qed.
+
+(* the hypotheses of the two conflict-soundness statements are satisfiable, with the error occurring *)
+Example C08_initial_error_inhabited :
+  let cm := fun _ : vkey => Ok ([] : list vkey) in
+  let cr := fun _ : vkey => Ok [mkrq (bs "a") 2 (bs "") []] in
+  let root := mkvk (bs "r") 1 (bs "1") in
+  (forall pre rq l, gm (fun _ => Err 0) cm (fun _ => true) (fun _ => true) (fun _ _ => false) (fun _ _ => false) root pre rq = Ok l ->
+                    StronglySorted ex_lt l) /\
+  init_criteria (fun _ => Err 0) cm (fun _ => true) (fun _ => true) (fun _ _ => false) (fun _ _ => false) root
+                empty_state [mkrq (bs "a") 2 (bs "") []] = Err EImpossible.
+Proof. exact example_initial_conflict. Qed.
 
 (* Non-vacuity: a well-formed client (answers of the Go LocalClient for a seven-package universe
    with a false marker, an extra and a conflict) on which the resolution backtracks once and
